@@ -585,7 +585,7 @@ def lift_shapes_lattice(ctx):
 @case("C04", "lift.collinearity.designed", [], kind="bounded", also=("C10",), share=True, functions=["geometer.operators.is_coplanar", "geometer.operators.is_perpendicular", "geometer.operators.is_cocircular", "geometer.operators.crossratio"],
       bound="is_collinear of 4 points (2D) / is_coplanar of 5 points (3D) on collections whose positions are DESIGNED (random points are never collinear): first dim+1 arguments "
             "independent / dependent with a later one off / all dependent / coincident first arguments; every order of 4 positions, shapes (4,), (2,2), (4,1); exact integer rank as oracle; "
-            "is_perpendicular of 3-element collections of 2D lines / planes mixing perpendicular, parallel and generic pairs (60 + 24 orders), is_cocircular of collections mixing "
+            "is_perpendicular of 3-element collections of 2D lines / planes mixing perpendicular, parallel and generic pairs (60 + 60 orders), is_cocircular of collections mixing "
             "cocircular, non-cocircular quadruples and quadruples with a == b (60 orders)")
 def lift_collinearity_designed(ctx):
     import geometer as g
@@ -650,8 +650,7 @@ def lift_collinearity_designed(ctx):
             ok = False
             w["exception"] = "%s: %s" % (type(e).__name__, str(e)[:100])
         ctx.ensure("is_perpendicular(2d):collections-mixing-parallel-and-perpendicular-pairs", ok, witness=w)
-    # (parallel planes are left out: is_perpendicular raises for them, open finding KF-C10-1, stated in C10/constructions.3d.lattice)
-    pl = [((1, 2, 2, -3), (2, -1, 0, 5), True), ((1, 2, 2, -3), (2, 4, 3, 1), False), ((1, 0, 1, 0), (1, 1, 0, 2), False), ((0, 0, 1, 4), (1, 1, 0, -2), True)]
+    pl = [((1, 2, 2, -3), (2, -1, 0, 5), True), ((1, 2, 2, -3), (2, 4, 4, 1), False), ((1, 0, 1, 0), (1, 1, 0, 2), False), ((0, 0, 1, 4), (1, 1, 0, -2), True), ((1, 2, 2, -3), (2, 4, 3, 1), False)]
     for order in itertools.permutations(range(len(pl)), 3):
         sel = [pl[i] for i in order]
         E = g.PlaneCollection(np.array([x[0] for x in sel], dtype=float))
@@ -665,7 +664,7 @@ def lift_collinearity_designed(ctx):
         except Exception as e:
             ok = False
             w["exception"] = "%s: %s" % (type(e).__name__, str(e)[:100])
-        ctx.ensure("is_perpendicular(3d-planes):collections-mixing-perpendicular-and-generic-pairs", ok, witness=w)
+        ctx.ensure("is_perpendicular(3d-planes):collections-mixing-parallel-perpendicular-and-generic-pairs", ok, witness=w)
     # is_cocircular: (a, b, c, d) on the circle x^2 + y^2 = 25 / d off it / a == b
     quads = [((5, 0), (0, 5), (-5, 0), (3, 4), True), ((5, 0), (0, 5), (-5, 0), (3, 3), False), ((5, 0), (5, 0), (-5, 0), (3, 4), True), ((5, 0), (5, 0), (-5, 0), (1, 1), True),
              ((4, 3), (-3, 4), (0, -5), (2, 2), False)]
